@@ -34,6 +34,9 @@ ANCHORS = [
     ("bermuda/utils/summarize.py", "summarize_cell_values"),
     ("bermuda/utils/summarize.py", "blend_cells"),
     ("bermuda/utils/summarize.py", "blend_samples"),
+    ("bermuda/utils/summarize.py", "_linear_blend"),
+    ("bermuda/utils/summarize.py", "_mixture_blend"),
+    ("bermuda/utils/disaggregate.py", "_weight_cell_values"),
     ("bermuda/utils/basis.py", "_values_add"),
     ("bermuda/utils/basis.py", "_values_diff"),
     ("bermuda/utils/basis.py", "to_incremental"),
